@@ -70,6 +70,7 @@ class Spec:
     variants = (None,)
     metric = "l2"
     checker = True
+    has_reward = True  # False: reward needs external data (DPP/MDPP impedance simulation), excluded by C03
     record = ()
 
     def env_kwargs(self, n, variant):
